@@ -86,7 +86,7 @@ func checkC09PathPhase(w *World, r *Report, id string) {
 }
 
 func checkC09Strip(w *World, r *Report) {
-	ru := r.Rule("C09.2", "port and trailing dot removed: the host given to the host matcher is StripHostPort(request host), tested non-empty first; StripHostPort returns its argument unchanged only when it is empty or net.SplitHostPort failed, and otherwise returns strings.TrimSuffix(host, \".\")", 3)
+	ru := r.Rule("C09.2", "port and trailing dot removed: the host given to the host matcher is StripHostPort(request host), tested non-empty first; StripHostPort returns its argument unchanged only when it is empty or net.SplitHostPort failed, and otherwise returns strings.TrimSuffix(host, \".\")", 2)
 	af := w.astFuncOf(modulePath, "roots.lookup")
 	calls := findCalls(af.decl.Body, "lookupByDomain")
 	if len(calls) != 1 {
@@ -149,7 +149,7 @@ func checkC09Strip(w *World, r *Report) {
 }
 
 func checkC09Fallback(w *World, r *Report) {
-	ru := r.Rule("C09.3", "fallback starts clean and only after a miss: the hostname attempt's result is returned when it found a node; the path-only fallback call is preceded on every path by truncating the context's params to 0 and clearing its tsr flag; the early path-only shortcut is taken only when the method root has the single child '/'", 3)
+	ru := r.Rule("C09.3", "fallback starts clean and only after a miss: the hostname attempt's result is returned when it found a node; the path-only fallback call is preceded on every path by truncating the context's params to 0 and clearing its tsr flag; the early path-only shortcut is taken only when the method root has the single child '/'", 2)
 	af := w.astFuncOf(modulePath, "roots.lookup")
 	calls := findCalls(af.decl.Body, "lookupByPath")
 	if len(calls) != 2 {
